@@ -138,6 +138,28 @@ func judgeC17(rep *core.Report, c *CaseResult) {
 			continue
 		}
 		if od.Text != d.Text {
+			// go:generate directives must go (C11); compare modulo those lines
+			var kept []string
+			hadGen := false
+			for _, l := range strings.Split(d.Text, "\n") {
+				if reGenerate.MatchString(l) {
+					hadGen = true
+					continue
+				}
+				kept = append(kept, l)
+			}
+			if hadGen && strings.Join(kept, "\n") == od.Text {
+				rep.Count("unmarked_interfaces_intact", 1)
+				continue
+			}
+			if hadGen && strings.HasSuffix(strings.Join(kept, "\n"), "\n"+od.Text) || hadGen && strings.HasSuffix(strings.Join(kept, "\n"), od.Text) {
+				// the remaining doc lines were detached from the interface (same defect as KF-C11-doc-detached-by-go-generate)
+				rep.Violate(&core.Violation{Property: "C17", Monitor: "selection", Symptom: "unmarked-interface-doc-detached", Features: map[string]string{"doc_followed_by_go_generate": "true"}, Case: s.ID,
+					Detail: fmt.Sprintf("interface %s: after removal of the go:generate line the rest of its doc comment is no longer attached:\n--- input:\n%s\n--- output:\n%s", name, d.Text, od.Text), Files: c.ReplayFiles()})
+				continue
+			}
+		}
+		if od.Text != d.Text {
 			viol("unmarked-interface-changed", fmt.Sprintf("interface %s changed:\n--- input (gofmt):\n%s\n--- output:\n%s", name, d.Text, od.Text))
 			continue
 		}
@@ -180,6 +202,22 @@ func RunC17(e *core.Env) int {
 	n := 500
 	if e.Tier == "thorough" {
 		n = 8000
+	}
+	{
+		setup := "//go:build convergen\n\npackage sc\n\ntype A struct{ X int }\n\ntype B struct{ X int }\n\ntype Convergen interface {\n\tConv(*A) *B\n}\n\n// c001 doc of Other\n//go:generate echo hello\ntype Other interface {\n\tDo(x int) string\n}\n"
+		s := &scen.Scenario{ID: "kw-c17-generate", PkgRel: "kwc17a", PkgName: "sc", InConv: true, Files: map[string]string{}}
+		s.Setup = s.PkgRel + "/setup.go"
+		s.Files[s.Setup] = setup
+		s.Files[s.PkgRel+"/types.go"] = "package sc\n"
+		s.Ifaces = []*scen.Iface{{Name: "Convergen", Converter: true, Methods: []*scen.Method{{Name: "Conv", Src: scen.Param{Type: "*A"}, Dst: scen.Param{Type: "*B"}}}},
+			{Name: "Other", Converter: false, Methods: []*scen.Method{{Name: "Do", Src: scen.Param{Type: "int"}, Dst: scen.Param{Type: "string"}}}}}
+		s.Feature("layout.vector", "corpus")
+		if cb, err := NewBatch(e, "corpus", []*scen.Scenario{s}); err == nil {
+			cb.RunTool(e, true)
+			for _, c := range cb.Cases {
+				judgeC17(rep, c)
+			}
+		}
 	}
 	runBroadBatches(e, rep, "select", n, 250, func(c *CaseResult) {
 		judgeC17(rep, c)
